@@ -284,6 +284,16 @@ class SimA(SimBase):
             step = max(1, -(-len(data) // n)) if data else 1
             parts = [data[i:i + step] for i in range(0, len(data), step)] \
                 or [b'']
+            if self.body_chunks == 1 and data:
+                # nobody asked for a particular delivery: request bodies
+                # arrive in rotating shapes, all legal ASGI - one event, two
+                # events, an EMPTY event (more_body true) between two halves,
+                # an empty event first
+                self._body_no = getattr(self, '_body_no', -1) + 1
+                h = len(data) // 2
+                parts = [[data], [data[:h], data[h:]],
+                         [data[:h], b'', data[h:]],
+                         [b'', data]][self._body_no % 4]
             it = iter(list(enumerate(parts)))
 
             async def receive():
